@@ -34,7 +34,10 @@ Comp == St(<<U(8, "s")>>)                       \* a byte-aligned composite sibl
 Sibs == { Bool, U(4, "s"), U(12, "s"), V(3), Comp, Var(U(12, "s"), 2) }
 Sibs2 == { U(4, "s"), Comp }
 Caps == {1, 2, 3}
-Bases == << {0}, {8}, {1}, {0, 4, 8}, {3, 16}, {7, 9}, {0, 64}, {0, 32, 64} >>
+\* the last two: large literal sets of equal size that agree in their 16 smallest and 16 largest elements
+BigBaseA == { 8 * j : j \in 0..39 }
+BigBaseB == (BigBaseA \ {160, 168}) \cup {161, 170}
+Bases == << {0}, {8}, {1}, {0, 4, 8}, {3, 16}, {7, 9}, {0, 64}, {0, 32, 64}, BigBaseA, BigBaseB >>
 
 NonVoid(t) == t.k # "void"
 Elem(t) == t.k \notin {"void", "fix", "var"}     \* DSDL arrays take scalar element types; void cannot be an element
